@@ -25,6 +25,9 @@ func checkC01(r *Run) {
 	c.ruleTaskNeverDiscards(r3)
 	c.ruleFailedKept(r4, nil)
 	c.ruleReconnectResumes(r8)
+	if m, _ := c.reconnModel(); m != nil {
+		c.ruleLoopStopsOnlyOnRequest(r8, m)
+	}
 	c.ruleWrapKeepsHandle(r5)
 	c.ruleTaskContext(r4)
 }
